@@ -264,6 +264,8 @@ def grid_files(draw):
         li, lo = round(of["lat_inc"] / k, 6), round(of["long_inc"] / k, 6)
         if li * k != of["lat_inc"] or lo * k != of["long_inc"] or li < 7.5:
             return None
+        if round(li, 3) != li or round(lo, 3) != lo:
+            return None     # extents are stored to 0.001": a child whose spacing has more decimals cannot have exact extents
         r0 = draw(st.integers(rlo, rhi - 1))
         dr = draw(st.integers(1, min(rhi - r0, max(1, 58 // k))))
         c0 = draw(st.integers(0, of["ncols"] - 2))
